@@ -770,3 +770,90 @@ REFACTORS += [
         }
         None""")]),
 ]
+
+REFACTORS += [
+    dict(name='extract_roll_over_helper', desc='roll-over code of RollingWriter::write moved verbatim into a private helper',
+         edits=[(DIR, """        if self.offset + buf.len() > FILE_NUM_BYTES {
+            self.file.flush()?;
+            self.file.get_ref().sync_data()?;
+            self.directory.sync_directory()?;
+
+            let (file_number, file) =
+                if let Some(next_file_number) = self.directory.files.next(&self.file_number) {
+                    let file = self.directory.open_file(&next_file_number)?;
+                    // This file may be the empty leftover of a crash that happened between its
+                    // creation and its sizing: make sure it is fully sized before writing to it.
+                    file.set_len(FILE_NUM_BYTES as u64)?;
+                    (next_file_number, file)
+                } else {
+                    let next_file_number = self.directory.files.inc(&self.file_number);
+                    let file = create_file(&self.directory.dir, &next_file_number)?;
+                    (next_file_number, file)
+                };
+
+            self.file = BufWriter::with_capacity(FRAME_NUM_BYTES, file);
+            self.file_number = file_number;
+            self.offset = 0;
+        }""", """        if self.offset + buf.len() > FILE_NUM_BYTES {
+            self.roll_over()?;
+        }"""),
+                (DIR, """impl BlockWrite for RollingWriter {""", """impl RollingWriter {
+    fn roll_over(&mut self) -> io::Result<()> {
+        self.file.flush()?;
+        self.file.get_ref().sync_data()?;
+        self.directory.sync_directory()?;
+
+        let (file_number, file) =
+            if let Some(next_file_number) = self.directory.files.next(&self.file_number) {
+                let file = self.directory.open_file(&next_file_number)?;
+                file.set_len(FILE_NUM_BYTES as u64)?;
+                (next_file_number, file)
+            } else {
+                let next_file_number = self.directory.files.inc(&self.file_number);
+                let file = create_file(&self.directory.dir, &next_file_number)?;
+                (next_file_number, file)
+            };
+
+        self.file = BufWriter::with_capacity(FRAME_NUM_BYTES, file);
+        self.file_number = file_number;
+        self.offset = 0;
+        Ok(())
+    }
+}
+
+impl BlockWrite for RollingWriter {""")]),
+]
+
+MUTANTS += [
+    dict(name='size_counts_handles_capacity_does_not', props=['C16'], rules=['MA1'], desc='MemQueue::size adds 24 bytes per retained FileNumber handle; capacity() is not updated',
+         edits=[(Q, """        self.concatenated_records.len()
+            + self.record_metas.len() * std::mem::size_of::<RecordMeta>()""", """        self.concatenated_records.len()
+            + self.record_metas.len() * std::mem::size_of::<RecordMeta>()
+            + self.record_metas.iter().filter(|meta| meta.file_number.is_some()).count() * 24""")]),
+    dict(name='taint_guard_inverted', props=['C10', 'C08'], rules=['TAINT1'], desc='MultiRecord::next: the length check is inverted',
+         edits=[(REC, '        if buffer.len() < len {\n            self.byte_offset = buffer.len();', '        if !(buffer.len() < len) {\n            self.byte_offset = buffer.len();')]),
+    dict(name='padding_condition_inverted', props=['C07'], rules=['CD2'], desc='write_frame pads when there IS room for a header',
+         edits=[(FWR, 'if num_bytes_remaining_in_block < HEADER_LEN {', 'if !(num_bytes_remaining_in_block < HEADER_LEN) {')]),
+    dict(name='retry_gate_inverted', props=['C13'], rules=['QX3'], desc='the retry no-op is returned when the position is NOT the last one',
+         edits=[(MRL, 'if position + 1 == next_position {', 'if position + 1 != next_position {')]),
+    dict(name='replay_realigns_known_queue', props=['C01', 'C09'], rules=['RP3'], desc='replay of an append re-aligns the queue when it IS known',
+         edits=[(MRL, '                        if !in_mem_queues.contains_queue(queue) {\n                            in_mem_queues.ack_position(queue, position);', '                        if in_mem_queues.contains_queue(queue) {\n                            in_mem_queues.ack_position(queue, position);')]),
+    dict(name='frame_header_not_consumed', props=['C07', 'C08'], rules=['FR5b'], desc='read_frame no longer advances the cursor past the header',
+         edits=[(FRD, '        self.cursor += HEADER_LEN;\n        if self.cursor + header.len() > BLOCK_NUM_BYTES {', '        if self.cursor + HEADER_LEN + header.len() > BLOCK_NUM_BYTES {')]),
+    dict(name='rollover_keeps_file_number', props=['C02', 'C06'], rules=['ROLL2'], desc='roll-over replaces the handle but not the file number',
+         edits=[(DIR, '            self.file_number = file_number;\n            self.offset = 0;', '            let _ = file_number;\n            self.offset = 0;')]),
+    dict(name='next_file_block_id_not_reset', props=['C01', 'C02'], rules=['NB2'], desc='next_block does not reset block_id when moving to the next file',
+         edits=[(DIR, '                self.block_id = 0;\n                self.file = next_file;', '                self.file = next_file;')]),
+    dict(name='minted_file_not_tracked', props=['C06', 'C01'], rules=['GC12'], desc='FileTracker::inc no longer inserts the new file number',
+         edits=[(FNUM, '        self.files.insert(new_file_number.clone());\n        new_file_number', '        new_file_number')]),
+    dict(name='entry_queue_name_not_encoded', props=['C07', 'C01'], rules=['CD8'], desc='record::serialize no longer appends the queue name bytes',
+         edits=[(REC, '    buffer.extend_from_slice(queue.as_bytes());\n', '')]),
+    dict(name='truncate_keeps_payload_bytes', props=['C16'], rules=['MA5'], desc='partial truncation drains the metas but not the payload buffer',
+         edits=[(Q, '        self.concatenated_records\n            .truncate_head(..start_offset_to_keep);\n', '')]),
+    dict(name='end_of_log_test_inverted', props=['C08'], rules=['FR3'], desc='get_frame_header reports NotAvailable for non-zero headers',
+         edits=[(FRD, 'if header_bytes == [0u8; HEADER_LEN] {', 'if header_bytes != [0u8; HEADER_LEN] {')]),
+    dict(name='tracker_keeps_three_files', props=['C06'], rules=['GC6'], desc='take_first_unused keeps at least 3 files while the trigger fires at 2',
+         edits=[(FNUM, 'if self.files.len() < 2 {', 'if self.files.len() <= 2 {')]),
+    dict(name='read_record_availability_inverted', props=['C02', 'C08', 'C12'], rules=['REC5'], desc='read_record deserialises when go_next said no record is available',
+         edits=[(RRD, '        if has_record {\n            let record = self.record()', '        if !has_record {\n            let record = self.record()')]),
+]
